@@ -42,7 +42,7 @@ pub open spec fn ins_point(mid: ParsedPacket, s: Section) -> int {
 pub open spec fn inserted(fin: ParsedPacket, mid: ParsedPacket, s: Section, rr: Seq<u8>) -> bool {
     let u = mid.bytes(); let ins = ins_point(mid, s); let n = rr.len() as int; let cp = 4 + 2 * sec_idx(s);
     let u1 = set2(u, cp, (be16(u, cp) + 1) as u16);        // only this section's count goes up by one
-    fin.packet.is_some() && fin.bytes() == u1.subrange(0, ins) + rr + u1.subrange(ins, u.len() as int)
+    fin.packet.is_some() && be16(u, cp) < 0xffff && fin.bytes() == u1.subrange(0, ins) + rr + u1.subrange(ins, u.len() as int)
     && fin.offset_question == (if s is Question { or_u(mid.offset_question, Some(ins as usize)) } else { mid.offset_question })
     && fin.offset_answers == (if s is Answer { or_u(mid.offset_answers, Some(ins as usize)) } else if s is Question { shift_u(mid.offset_answers, n) } else { mid.offset_answers })
     && fin.offset_nameservers == (if s is NameServers { or_u(mid.offset_nameservers, Some(ins as usize)) } else if s is Question || s is Answer { shift_u(mid.offset_nameservers, n) } else { mid.offset_nameservers })
